@@ -14,6 +14,7 @@ import KotoVerif.Lemmas.C14MapIndex
 import KotoVerif.Lemmas.C14EqSymm
 import KotoVerif.Lemmas.C14KeyPER
 import KotoVerif.Lemmas.C14Hash
+import KotoVerif.Lemmas.C14NumOrder
 import KotoVerif.Lemmas.C14DeepCopy
 import KotoVerif.Lemmas.C14DeepCopySnap
 
@@ -303,5 +304,23 @@ theorem str_total_preorder : TotalPreorder bytesLt where
       · rw [h] at hab; exact absurd hab (by simp)
 
 example : sortBy bytesLt [[98], [97, 1], [97]] = [[97], [97, 1], [98]] := by decide
+
+/-- the number comparator (`<` on `KNumber`, as `compare_values` applies it) is a total preorder on
+numbers without NaN whose integers convert to `f64` strictly monotonically (`S`; for doubles
+|n| ≤ 2^53) — under the explicit float hypotheses `NumOrderLaws F S`. Outside `S` it is not one
+(`2^53+1 ≤ 2^53.0 ≤ 2^53` but `2^53+1 > 2^53`). -/
+theorem num_total_preorder {F : FloatOps} {S : Int64 → Prop} (hL : NumOrderLaws F S) :
+    TotalPreorder (fun (a b : GoodNum F S) => Num.lt F a.1 b.1) :=
+  Equal.num_total_preorder hL
+
+/-- so sorting such numbers (the model's comparator `numLt` is the promoted `<` off NaN, and sorting
+commutes with forgetting the side conditions) is covered by `sort_sorted_perm_stable` -/
+theorem sort_numbers {F : FloatOps} {S : Int64 → Prop} (xs : List (GoodNum F S)) :
+    (∀ a b : GoodNum F S, numLt F a.1 b.1 = Num.lt F a.1 b.1) ∧
+    sortBy (fun a b => Num.lt F a b) (xs.map (·.1)) =
+      (sortBy (fun (a b : GoodNum F S) => Num.lt F a.1 b.1) xs).map (·.1) :=
+  ⟨fun a b => numLt_eq_lt F a.1 b.1 a.2.1 b.2.1, (map_sortBy (·.1) (fun a b => Num.lt F a b) xs).symm⟩
+
+example : NumOrderLaws Equal.F0 (fun _ => True) := F0_numOrderLaws
 
 end KotoVerif.C14
